@@ -5,6 +5,7 @@
 //   - large maps (string and int keys, 1000 entries, grown and partly deleted) iterate in an order that is identical
 //     on repeat in the process AND in a second process for the same seed, and differs between all seeds,
 //   - without VERIF_MAPSEED the pristine randomisation is still in place (several orders in 64 iterations).
+//
 // Prints "mapseed selftest: OK" and exits 0, or explains and exits 1.
 package main
 
